@@ -91,3 +91,12 @@ def genomic_oracle(exons, strand, t):
             return s + k
         k -= e - s
     return None
+
+
+def anno_multi(gstart, gend, strand, tx_exons, chrom='chr1', gene_id='G1'):
+    """one gene with transcripts T1..Tn given by their exon lists"""
+    txs = {}
+    for i, exons in enumerate(tx_exons):
+        txs[f'T{i + 1}'] = tx_model(f'T{i + 1}', gene_id, chrom, strand, exons)
+    gm = gene_model(gene_id, chrom, gstart, gend, strand, list(txs))
+    return gtf.GenomicAnnotation(genes={gene_id: gm}, transcripts=txs, source='GENCODE')
